@@ -189,6 +189,7 @@ type FuncResult struct {
 	Trivial    int
 	Abstracted []string
 	Err        string // out-of-subset / engine error
+	Used       []string
 }
 
 func (e *Engine) VerifyFunc(key string) (res *FuncResult) {
@@ -207,7 +208,7 @@ func (e *Engine) VerifyFunc(key string) (res *FuncResult) {
 		res.Err = "function not found in the loaded program"
 		return
 	}
-	rc := &rootCtx{fn: fn, key: key, spec: spec, nameCnt: map[string]int{}, abstracted: map[string]bool{}, params: map[string]SVal{}}
+	rc := &rootCtx{fn: fn, key: key, spec: spec, nameCnt: map[string]int{}, abstracted: map[string]bool{}, params: map[string]SVal{}, used: map[string]bool{}}
 	e.cur = rc
 	e.setRgn(0)
 	defer func() {
@@ -216,6 +217,7 @@ func (e *Engine) VerifyFunc(key string) (res *FuncResult) {
 		res.Returns = rc.returns
 		res.Trivial = rc.trivial
 		res.Abstracted = sortedKeys(rc.abstracted)
+		res.Used = sortedKeys(rc.used)
 		if r := recover(); r != nil {
 			if u, ok := r.(Unsupported); ok {
 				res.Err = u.Msg
@@ -256,6 +258,7 @@ func (e *Engine) VerifyFunc(key string) (res *FuncResult) {
 		st.facts = append(st.facts, facts...)
 	}
 	rc.entry = st.clone()
+	rc.inputs = e.inputTerms(fn, args, &rc.entry.heap)
 	rc.modRanges = e.modRangesOf(env, spec)
 	if spec.Decreases != nil {
 		rc.variant = env.asInt64(env.toType(env.eval(spec.Decreases.Expr), types.Typ[types.Int]))
@@ -271,6 +274,8 @@ func (e *Engine) VerifyFunc(key string) (res *FuncResult) {
 		rc.returns++
 		post := e.specEnvFor(fn, spec, args, rets, &st2.heap, &rc.entry.heap, false)
 		fr := &frame{fn: fn}
+		rc.outputs = e.outputTerms(fn, rets, &st2.heap)
+		defer func() { rc.outputs = nil }()
 		for i, en := range spec.Ensures {
 			goal, facts := e.clauseGoal(post, en)
 			s3 := st2
@@ -571,4 +576,84 @@ func (e *Engine) verifyLemma(key string, spec *FuncSpec) (res *FuncResult) {
 		e.obligeNoAssume(s3, nil, "post", clauseName(en, i), goal)
 	}
 	return
+}
+
+// inputTerms lists the entry-state terms whose model values reconstruct the inputs of fn.
+func (e *Engine) inputTerms(fn *ssa.Function, args []Value, h *Heap) []InputTerm {
+	c := e.C
+	var out []InputTerm
+	var add func(name string, v Value, t types.Type, depth int)
+	add = func(name string, v Value, t types.Type, depth int) {
+		switch x := v.(type) {
+		case Scalar:
+			out = append(out, InputTerm{name, x.T})
+		case Slice:
+			out = append(out, InputTerm{name + ".len", x.Len}, InputTerm{name + ".cap", x.Cap})
+			if st, ok := t.Underlying().(*types.Slice); ok && sizeof(st.Elem()) == 1 {
+				for i := 0; i < 48; i++ {
+					out = append(out, InputTerm{fmt.Sprintf("%s[%d]", name, i), c.loadCell(h, K8, x.P, int64(i))})
+				}
+			}
+		case Str:
+			out = append(out, InputTerm{name + ".len", x.Len})
+			for i := 0; i < 48; i++ {
+				out = append(out, InputTerm{fmt.Sprintf("%s[%d]", name, i), c.loadCell(h, K8, x.P, int64(i))})
+			}
+		case Ptr:
+			out = append(out, InputTerm{name + ".nil", c.IsNil(x)})
+			if pt, ok := t.Underlying().(*types.Pointer); ok && depth < 2 {
+				if _, isStruct := pt.Elem().Underlying().(*types.Struct); isStruct {
+					func() {
+						defer func() { recover() }()
+						add("(*"+name+")", c.Load(h, x, 0, pt.Elem()), pt.Elem(), depth+1)
+					}()
+				}
+			}
+		case Struct:
+			if st, ok := t.Underlying().(*types.Struct); ok {
+				for i, f := range x.F {
+					add(name+"."+st.Field(i).Name(), f, st.Field(i).Type(), depth)
+				}
+			}
+		case Iface:
+			out = append(out, InputTerm{name + ".typ", x.Typ})
+		}
+	}
+	for i, p := range fn.Params {
+		n := p.Name()
+		if n == "" {
+			n = fmt.Sprintf("arg%d", i)
+		}
+		add(n, args[i], p.Type(), 0)
+	}
+	return out
+}
+
+// outputTerms lists the terms of the final state that the replay harness can observe.
+func (e *Engine) outputTerms(fn *ssa.Function, rets []Value, h *Heap) []InputTerm {
+	c := e.C
+	var out []InputTerm
+	rs := fn.Signature.Results()
+	for i, v := range rets {
+		name := fmt.Sprintf("r%d", i)
+		switch x := v.(type) {
+		case Scalar:
+			out = append(out, InputTerm{name, x.T})
+		case Slice:
+			out = append(out, InputTerm{name + ".len", x.Len})
+			if st, ok := rs.At(i).Type().Underlying().(*types.Slice); ok && sizeof(st.Elem()) == 1 {
+				for j := 0; j < 64; j++ {
+					out = append(out, InputTerm{fmt.Sprintf("%s[%d]", name, j), c.loadCell(h, K8, x.P, int64(j))})
+				}
+			}
+		case Str:
+			out = append(out, InputTerm{name + ".len", x.Len})
+			for j := 0; j < 64; j++ {
+				out = append(out, InputTerm{fmt.Sprintf("%s[%d]", name, j), c.loadCell(h, K8, x.P, int64(j))})
+			}
+		case Iface:
+			out = append(out, InputTerm{name + ".nil", c.Eq(x.Typ, c.Const(TypW, 0))})
+		}
+	}
+	return out
 }
